@@ -97,6 +97,7 @@ func genSpecials() []descCase {
 		{"interface a.b\nmethod M(a: (b: (c: (d: (e: (f: int)))))) -> (a: [][][]?[][string]?int)\n", "deep"},
 		{"interface a.b\nmethod M(e: (a, b, c), f: ?(x, y), g: [](one)) -> (e: (a, b))\nerror E (e: (a, b))\ntype En (a, b, c)\n", "enum-field"},
 		{"interface a.b\ntype O object\nmethod M(o: O, m: [string]O, d: object) -> (o: O, l: []O)\nerror E (o: O)\n", "obj-alias"},
+		{"interface a.b\ntype U ?object\nmethod M(u: U) -> (u: U)\nerror E (u: U)\n", "opt-obj-alias"},
 		{"interface var.link\nmethod M() -> ()\n", "pkg-varlink"},
 		{"interface con.text\nmethod M(o: object) -> ()\nerror E (a: int)\n", "pkg-context"},
 		{"interface js.on\nmethod M(o: object) -> ()\nerror E (a: int)\n", "pkg-json"},
